@@ -227,7 +227,11 @@ def _intermediate(ordered, doc):
 
 
 def parse_model(ans):
-    content, fixed, levels, ops, lg = ans.split("|")
+    content, fixed, levels, ops, lg, cf = ans.split("|")
+    conflict = None
+    if cf != "-":
+        k, before = cf.split(":", 1)
+        conflict = (int(k), E.unxs(before))
     log = []
     for e in (lg.split(";") if lg else []):
         p = e.split(":")
@@ -237,7 +241,7 @@ def parse_model(ans):
         elif p[1] == "L": log.append((pid, "L", int(p[2]), E.unxs(p[3]), p[4] == "1"))
         else: log.append((pid, "D", int(p[2]), p[3] == "1"))
     return dict(content=E.unxs(content), fixed=fixed == "1", levels=[int(x) for x in levels.split(",") if x],
-                ops=[o for o in ops.split(",") if o], log=log)
+                ops=[o for o in ops.split(",") if o], log=log, conflict=conflict)
 
 
 # ------------------------------------------------------------------ real side
@@ -269,6 +273,15 @@ def compare_fix(real, model, doc=None):
         # no fix-capable rule enabled: fix mode is a no-op for the file
         if real["code"] != 0 or real["announced"] or real["ops"] or real["log"]:
             diffs.append(f"no fix-capable rule: expected a no-op (exit 0, no file operation, no callback), real exit {real['code']} ops {real['ops'][:3]} log {real['log'][:2]}")
+        return diffs
+    if model.get("conflict"):
+        # the pass at this level ends in BadPluginError (a second rule set a completion line): the passes before it have written
+        # back, this one must not; the run is a failed run (exit 1, file named, nothing announced).  F-TMP covers the temp file.
+        k, before = model["conflict"]
+        if real["content"] != before:
+            diffs.append(f"completion conflict at level {k}: target must hold the content before that pass {before!r}, real {real['content']!r}")
+        if real["code"] != 1 or real["announced"] or "doc.md" not in real["err"] or "completed_file" not in real["err"]:
+            diffs.append(f"completion conflict at level {k}: expected exit 1, the file named, no 'Fixed:' line; real exit {real['code']} announced {real['announced']} stderr {real['err'][-120:]!r}")
         return diffs
     if real["content"] != model["content"]:
         diffs.append(f"content: real {real['content']!r} model {model['content']!r}")
@@ -351,4 +364,11 @@ FIX_CORPUS = [
       dict(id="VPB002", level=1, fixes=True, start=False, token=False, line=True, done=True, doneNl=True, trig="bb", repl="cc")], "x aa y\nzz"),
     ([dict(id="VPA001", level=1, fixes=False, start=True, token=True, line=True, done=True, doneNl=False, trig="aa", repl="bb")], "aa\n"),
     ([dict(id="VPA001", level=1, fixes=True, start=True, token=True, line=True, done=True, doneNl=True, trig="", repl="")], ""),
+    # two rules that both append the final newline: same level = completion-line conflict (BadPluginError), different levels = fine
+    ([dict(id="VPA001", level=1, fixes=True, start=False, token=False, line=True, done=True, doneNl=True, trig="x", repl="xx"),
+      dict(id="ZZZ999", level=1, fixes=True, start=False, token=True, line=False, done=True, doneNl=True, trig="bb", repl="cc")], "plain\nx aa y\naa"),
+    ([dict(id="VPA001", level=1, fixes=True, start=False, token=False, line=True, done=True, doneNl=True, trig="x", repl="xx"),
+      dict(id="ZZZ999", level=1, fixes=True, start=False, token=True, line=False, done=True, doneNl=True, trig="bb", repl="cc")], "plain\nx aa y\naa\n"),
+    ([dict(id="VPA001", level=0, fixes=True, start=False, token=False, line=True, done=True, doneNl=True, trig="x", repl="xx"),
+      dict(id="ZZZ999", level=2, fixes=True, start=False, token=True, line=True, done=True, doneNl=True, trig="aa", repl="cc")], "plain\nx aa y\naa"),
 ]
